@@ -1339,7 +1339,9 @@ pub(crate) fn target_n_trees(
                 }
             }
 
-            nb_trees
+            // An index that doesn't fit in a single descendant always needs at least one tree:
+            // with a single dimension the formula above gives zero trees.
+            nb_trees.max(1)
         }
     }
 }
